@@ -144,6 +144,14 @@ impl Live {
             Api::Async => block_on(PMTiles::from_async_reader(futures::io::Cursor::new(bytes))).map(|p| Live { obj: Obj::A(p), backing }).map_err(|e| e.to_string()),
         }
     }
+    pub fn open_partial(bytes: Vec<u8>, api: Api, lo: u64, hi: u64) -> Result<Live, String> {
+        // the range is part of the identity of the backing (different ranges bind different tiles)
+        let backing = (fnv(&bytes) ^ lo.wrapping_mul(0x9E37_79B9_7F4A_7C15) ^ hi.rotate_left(17)) | 1;
+        match api {
+            Api::Sync => PMTiles::from_reader_partially(std::io::Cursor::new(bytes), lo..=hi).map(|p| Live { obj: Obj::S(p), backing }).map_err(|e| e.to_string()),
+            Api::Async => block_on(PMTiles::from_async_reader_partially(futures::io::Cursor::new(bytes), lo..=hi)).map(|p| Live { obj: Obj::A(p), backing }).map_err(|e| e.to_string()),
+        }
+    }
     pub fn fresh(api: Api, internal: Compression) -> Live {
         match api {
             Api::Sync => {
@@ -169,6 +177,8 @@ pub enum Init {
     Fresh(Api, Compression),
     /// foreign archive bytes, reader flavour, the content it addresses
     Foreign(usize, Api),
+    /// foreign archive opened through the range filter (lo..=hi): only those tiles exist afterwards
+    ForeignPartial(usize, Api, u64, u64),
 }
 
 pub struct Alphabet {
@@ -201,6 +211,11 @@ impl Alphabet {
             inits.push(Init::Foreign(i, Api::Sync));
             inits.push(Init::Foreign(i, Api::Async));
         }
+        // range-filtered opens: a run cut in the middle, and a leaf archive restricted to its tail
+        inits.push(Init::ForeignPartial(0, Api::Sync, 0, 1));
+        inits.push(Init::ForeignPartial(0, Api::Async, 1, 2));
+        inits.push(Init::ForeignPartial(1, Api::Sync, 1, 2));
+        inits.push(Init::ForeignPartial(1, Api::Async, 0, 0));
         Self { ids, contents, outsider: 3, foreign, inits, thorough }
     }
     pub fn ops(&self) -> Vec<Op> {
@@ -221,6 +236,7 @@ impl Alphabet {
         match &self.inits[i] {
             Init::Fresh(a, c) => json!({"init":"fresh","api":a.name(),"internal":crate::common::cname(*c)}),
             Init::Foreign(k, a) => json!({"init":"foreign","index":k,"api":a.name()}),
+            Init::ForeignPartial(k, a, lo, hi) => json!({"init":"foreign-partial","index":k,"api":a.name(),"range":[lo, hi]}),
         }
     }
 }
@@ -259,6 +275,11 @@ pub fn initial(alpha: &Alphabet, i: usize) -> Result<(Live, Model), String> {
         Init::Foreign(k, a) => {
             let (bytes, model) = &alpha.foreign[*k];
             Ok((Live::open(bytes.clone(), *a)?, model.clone()))
+        }
+        Init::ForeignPartial(k, a, lo, hi) => {
+            let (bytes, model) = &alpha.foreign[*k];
+            let m: Model = model.iter().filter(|(id, _)| **id >= *lo && **id <= *hi).map(|(a, b)| (*a, b.clone())).collect();
+            Ok((Live::open_partial(bytes.clone(), *a, *lo, *hi)?, m))
         }
     }
 }
